@@ -78,7 +78,7 @@ theorem update_effect (cfg : Cfg M K R) (h : EqRefl cfg.ops) (s : CState M R) (i
         (Spec.commit cfg wr t1 id1 old new calls cc).2.clock =
           (match wr.writeTime with | some _ => t.clock | none => t.clock + cfg.tick + cfg.tick)) := by
     intro id1 calls cc t1 old new hm hclk hold
-    have hedit : ∀ (tm : Nat) (s'' : CState M R) (tt : Nat),
+    have hedit : ∀ (tm : Int) (s'' : CState M R) (tt : Int),
         contents s'' = (fun k => ((if k = id1 then some ({ body := new, time := tt } : Item M) else t1.m k)).map (·.body)) →
         IsEdit (contents s) (contents s'')
           ({ id := id1, time := tm, kind := if old.isNone then .add else .update, old := old, new := some new } : CEvent M) := by
@@ -115,7 +115,7 @@ theorem update_effect (cfg : Cfg M K R) (h : EqRefl cfg.ops) (s : CState M R) (i
   | created id1 calls t1 new _ hr hl _ _ => exact commit id1 calls _ t1 none new hr.m_eq.1 hr.m_eq.2 (by rw [hl]; rfl)
 
 /-- what a successful `Delete` returns and announces -/
-def removedOut (id : String) (t : Nat) (body : M) : COut M :=
+def removedOut (id : String) (t : Int) (body : M) : COut M :=
   { val := some body, err := none,
     events := [{ id := id, time := t, kind := .remove, old := some body, new := none }],
     idCalls := [], createdCalls := 0 }
